@@ -113,6 +113,8 @@ def run_publish(work, image_id, listing, fault):
         return e
     except OSError as e:
         return e
+    except Exception as e:       # a publish that reports failure in any other way: the state it leaves is judged all the same
+        return e
 
 
 def run_refresh(work, image_id):
